@@ -29,16 +29,27 @@ ASSUMPTIONS = ["ID order of the result is not part of the property (sets are "
 UNI_O = ["O%d" % i for i in range(6)] + ["O10", "O_longer observation/7"]
 UNI_S = ["S%d" % i for i in range(6)] + ["S10", "S_longer sample.id-7"]
 MODES = st.sampled_from(["union", "intersection"])
-MDF = ["default", "dict_union", "prefer_other", "none"]
+MDF = ["default", "dict_union", "prefer_other", "tag", "none"]
 
 
 @st.composite
-def operand(draw, values, with_md):
-    def pick(uni):
+def operand(draw, values, with_md, base=None):
+    def pick(uni, first):
+        how = draw(st.sampled_from(["free", "free", "free", "perm", "same",
+                                    "nested"])) if first else "free"
+        if how == "perm":       # the same IDs, listed in another order
+            return list(draw(st.permutations(first)))
+        if how == "same":
+            return list(first)
+        if how == "nested":
+            k = draw(st.lists(st.sampled_from(first), min_size=1,
+                              max_size=len(first), unique=True))
+            return list(k)
         k = draw(st.lists(st.sampled_from(uni), min_size=1, max_size=6,
                           unique=True))
         return list(k)
-    obs, samp = pick(UNI_O), pick(UNI_S)
+    obs = pick(UNI_O, base["obs"] if base else None)
+    samp = pick(UNI_S, base["samp"] if base else None)
     rows = draw(gen.matrices(len(obs), len(samp), values))
     spec = {"obs": obs, "samp": samp, "rows": rows, "type": None,
             "form": draw(st.sampled_from(gen.FORMS)),
@@ -67,10 +78,14 @@ def cases(draw, tier):
         mds = ["none"] * (k + 1) if mdf != "none" else \
             [draw(st.sampled_from(["none", "obs", "both"]))
              for _ in range(k + 1)]
-        operands = [draw(operand(values, m)) for m in mds]
+        operands = [draw(operand(values, mds[0]))]
+        for m in mds[1:]:
+            operands.append(draw(operand(values, m, operands[0])))
     else:
         operands = [draw(operand(values, draw(st.sampled_from(
-            ["none", "none", "obs", "samp", "both"])))) for _ in range(2)]
+            ["none", "none", "obs", "samp", "both"]))))]
+        operands.append(draw(operand(values, draw(st.sampled_from(
+            ["none", "none", "obs", "samp", "both"])), operands[0])))
     return {"operands": operands, "form": form, "sample": sample,
             "observation": obs, "mdf": mdf}
 
@@ -90,6 +105,18 @@ def md_function(name):
         return f
     if name == "prefer_other":
         return lambda x, y: y if y is not None else x
+    if name == "tag":
+        # records which sides it was given (a custom function is called for
+        # IDs only one operand describes, too)
+        def g(x, y):
+            if x is None and y is None:
+                return None
+            d = dict(y or {})
+            d.update(x or {})
+            d["sides"] = "%s%s" % ("S" if x is not None else "-",
+                                   "O" if y is not None else "-")
+            return d
+        return g
     raise ValueError(name)
 
 
